@@ -472,3 +472,31 @@ pub fn set_boolean(v: &mut Value, boolean: bool) {
         v.meta.flags.remove(ArrayFlags::BOOLEAN);
     }
 }
+
+// ---------------------------------------------------------------- frame monitor (C02 / C11)
+thread_local! {
+    static FRAME_MONITOR: std::cell::Cell<bool> = const { std::cell::Cell::new(false) };
+    static FRAME_VIOLATIONS: std::cell::RefCell<Vec<String>> = const { std::cell::RefCell::new(Vec::new()) };
+}
+/// While on (per thread), every execution of a function or operand that carries a signature checks, when it
+/// returns AND when it fails, that the values beneath its arguments (stack and context stack) are what they
+/// were, that the context stack height follows the signature, and that call / fill / unfill / boundary /
+/// recursion stacks are back to their heights.  Violations are collected, never raised.
+pub fn set_frame_monitor(on: bool) {
+    FRAME_MONITOR.with(|m| m.set(on));
+}
+pub(crate) fn frame_monitor_on() -> bool {
+    FRAME_MONITOR.with(|m| m.get())
+}
+pub(crate) fn frame_violation(what: String) {
+    FRAME_VIOLATIONS.with(|v| {
+        let mut v = v.borrow_mut();
+        if v.len() < 64 {
+            v.push(what)
+        }
+    });
+}
+/// The violations recorded on this thread since the last call
+pub fn take_frame_violations() -> Vec<String> {
+    FRAME_VIOLATIONS.with(|v| std::mem::take(&mut *v.borrow_mut()))
+}
